@@ -714,6 +714,13 @@ fn conc_props(tier: &str, seed: u64, out: &str) {
                 scenarios.push((format!("{iname}:{}||{}", muts[a], r), init.clone(), format!("{}|{}", muts[a], r)));
             }
         }
+        // node lifetime: a thread makes a node of its own, connects it, disconnects it again and drops its only handle
+        // while another thread iterates or traverses the node it was attached to
+        for life in ["m.2.0/c.0.2.1/d.0.2/k.2", "m.2.0/c.2.0.1/d.2.0/k.2", "m.2.0/c.0.2.1/x.2/k.2"] {
+            for r in ["i.0", "P.0", "B.0.1", "g.0"] {
+                scenarios.push((format!("{iname}:{r}||{life}"), init.clone(), format!("{r}|{life}")));
+            }
+        }
         if !quick {
             // three threads, and two calls per thread
             let mut rng = Rng::new(seed.wrapping_mul(67));
